@@ -478,6 +478,8 @@ class Machine:
             if c is None or c[0] is UNBOUND:
                 raise SchemeError(ErrorObj("free identifier: %s" % x))
             return ("ret", c[0], k)
+        if isinstance(x, VecLit):
+            return ("ret", datum(x), k)   # a vector literal evaluates to a constant (immutable) vector
         if not isinstance(x, list):
             return ("ret", x, k)   # self-evaluating
         if not x:
